@@ -33,6 +33,9 @@
 //!   crash <n>                    the node restarts from the store as it was after the n-th mutation
 //!   kvfail <n>                   the n-th next store/remove call fails
 //!   freset                       factory reset
+//!   fresetk <k>                  factory reset during which the k-th store call OF THE RESET fails (k = 1..255 the fabric
+//!                                keys, 256 basic info, 257 / 258 the two RTC keys, 259 the CASE resumption cache, 260 the
+//!                                group data counter, 261 the networks; 0 or more: no fault). A pending `kvfail` is dropped
 //!   corrupt <hexbyte>            the persisted resumption blob is overwritten with garbage, then restart
 //!   hs <fab> <node> <rid>        CASE handshake up to Sigma3: a RESERVED session with the CASE mode (real `ReservedSession`)
 //!   hsdone <s>                   its last message is acknowledged: the guard is dropped
@@ -80,6 +83,8 @@ pub struct KvInner {
     /// every effective mutation of the case, in order (crash points)
     pub log: Vec<(u16, Option<Vec<u8>>)>,
     pub failed_calls: u64,
+    /// the key the last injected fault hit (statistics of `fresetk`)
+    pub last_fault_key: Option<u16>,
     /// handler-level path: keys other than the fabric / networks / resumption keys (event epoch,
     /// basic info, ...) are stored but neither logged nor hit by injected faults
     pub h_mode: bool,
@@ -139,6 +144,7 @@ impl KvBlobStore for Kv {
             return Ok(());
         }
         if i.fault() {
+            i.last_fault_key = Some(key);
             return Err(i.fault_code().into());
         }
         i.map.insert(key, data.to_vec());
@@ -153,6 +159,7 @@ impl KvBlobStore for Kv {
             return Ok(());
         }
         if i.fault() {
+            i.last_fault_key = Some(key);
             return Err(i.fault_code().into());
         }
         if i.map.remove(&key).is_some() {
@@ -436,6 +443,11 @@ impl World {
     }
 
     /// a light view of the real state for the online generator
+    /// the key the last injected store fault hit (statistics of the `fresetk` profile)
+    pub fn last_fault_key(&self) -> Option<u16> {
+        self.kv.0.borrow().last_fault_key
+    }
+
     pub fn view(&self) -> View {
         self.matter.with_state(|state| {
             let p = state.verif_parts();
@@ -1185,6 +1197,20 @@ impl World {
                     (Err(e), _) => code(&e),
                     (_, Err(e)) => code(&e),
                 }
+            }
+            "fresetk" => {
+                // the factory reset of the RUNNING node with the fault on its k-th store call (lib.rs:621: the fabric
+                // keys 1..255, basic info, the two RTC keys, the resumption cache, the group data counter; then the
+                // networks as in `freset`); whatever the store answers, the node carries on
+                let k = num(1);
+                {
+                    let mut i = self.kv.0.borrow_mut();
+                    i.fail_in = if k <= 261 { k as u32 } else { 0 };
+                    i.last_fault_key = None;
+                }
+                let r = self.exec("freset");
+                self.kv.0.borrow_mut().fail_in = 0;
+                r
             }
             _ => "bad".into(),
         }
